@@ -1,3 +1,20 @@
+// Command line (the package is built with `go test -c -tags verif`):
+//
+//	concdrive -test.run '^TestDrive$' -test.timeout 0 -mode=batch -prop=C06|C07 [-tier=quick|thorough]
+//	          [-seed N] [-jobs 16] [-procs 4] [-budget 75s] [-n N] [-out summary.json] [-corpus DIR]
+//	          [-focus syncPubEvent,onLeave,...] [-skip shape,...] [-shrink=true]
+//	concdrive -test.run '^TestDrive$' -test.timeout 0 -mode=replay -history=FILE     exit 0 pass / 1 fail
+//	concdrive -test.run '^TestDrive$' -test.timeout 0 -mode=gen -prop=.. [-tier ..] [-seed N] [-n N]
+//	concdrive ... -mode=worker -histories=FILE [-trace] [-deadline unixnano]         (internal)
+//
+// batch: the parent generates the histories (corpus first), deals them round
+// robin to -jobs children (this binary with -mode=worker), restarts a child
+// that crashed (the history whose BEGIN had no RESULT gets oracle "panic") or
+// made no progress for 20 s of real time (oracle "harness-timeout"), shrinks
+// the first failure of each signature and writes the summary JSON.
+// Worker protocol on stdout, one line each: "BEGIN <id>", optional
+// "PARTIAL <result json>" (state before a step that may kill the process),
+// "RESULT <result json>".
 package concdrive
 
 import (
